@@ -222,6 +222,41 @@ def nearest_rule(ctx, r):
                   fn=f, loc=c.loc, construct=fld)
         else:
             r.ok(key, "guarded by %s.is_none()" % f.local_name(acc), fn=f)
+    # cross-source independence: whether source A is consulted at a directory must not depend on what ANOTHER
+    # source said (nearest-first holds within one source only; precedence between sources is decided by the
+    # .or() chain afterwards)
+    accs = {}
+    for c in f.calls_to(GI_MATCHED):
+        flds = matcher_fields_in(eb.operand(c.args[0]))
+        if len(flds) == 1 and next(iter(flds)) != "git_global_matcher":
+            a = flows_into_named(f, c)
+            if a is not None:
+                accs.setdefault(a, []).append(c)
+    def isnone_of(e):
+        out = set()
+        for x in walk(e):
+            if is_call(x, MATCH + "::is_none"):
+                for y in walk(x[3][0]):
+                    if y.k in ("phi", "local") and y[1] in accs:
+                        out.add(y[1])
+        return out
+    all_sw = cond_switches(f, lambda e: bool(isnone_of(e)), eb)
+    for a, cs in sorted(accs.items()):
+        foreign = [s_ for s_ in all_sw if isnone_of(s_[3]) - {a}]
+        bad = []
+        for c in cs:
+            for s_ in foreign:
+                if not guarded(f, [c.bb], [s_], True) or not guarded(f, [c.bb], [s_], False):
+                    bad.append((c, s_))
+        key = "independent|%s" % f.local_name(a)
+        if bad:
+            c, s_ = bad[0]
+            others = sorted(f.local_name(x) for x in isnone_of(s_[3]) - {a})
+            r.bad(key, "whether %s is consulted at %s depends on what another rule source matched (%s): a lower-precedence "
+                  "source found nearer would shadow a higher-precedence one found farther up" % (f.local_name(a), c.loc, ", ".join(others)),
+                  fn=f, loc=c.loc, construct="independence")
+        else:
+            r.ok(key, "%d assignment site(s) of %s do not depend on other sources' results" % (len(cs), f.local_name(a)), fn=f)
     # absolute-parent loop guarded by opts.parents
     sw = cond_switches(f, lambda e: is_field(strip(e), OPTS, "parents") or mentions_field(e, OPTS, "parents"), eb)
     ab = f.calls_to(D + "::Ignore::absolute_base")
